@@ -347,6 +347,22 @@ func (e *Engine) callWrites(cc *ssa.CallCommon, w *WriteSet, fn *ssa.Function, v
 				w.Heap[gBrPos] = true
 			}
 		}
+		if funcKey(f) == "golang.org/x/sync/errgroup.Group.Go" && len(cc.Args) == 2 {
+			// the group runs the function it is given: its effect is the function's effect
+			if mc, ok := cc.Args[1].(*ssa.MakeClosure); ok {
+				if cf, ok := mc.Fn.(*ssa.Function); ok {
+					e.funcWrites(cf, w, visiting)
+					return
+				}
+			}
+			w.setAll("errgroup.Go with a non-literal function")
+			return
+		}
+		switch funcKey(f) {
+		case "golang.org/x/sync/errgroup.WithContext", "golang.org/x/sync/errgroup.Group.Wait",
+			"golang.org/x/sync/semaphore.Weighted.Acquire", "golang.org/x/sync/semaphore.Weighted.Release", "golang.org/x/sync/semaphore.Weighted.TryAcquire":
+			return
+		}
 		if ai, ok := readerOpArg(f); ok && ai < len(cc.Args) {
 			// a reader-model operation: advances exactly the reader it is given
 			noteReader(cc.Args[ai])
@@ -383,7 +399,56 @@ func (e *Engine) callWrites(cc *ssa.CallCommon, w *WriteSet, fn *ssa.Function, v
 			return
 		}
 	}
-	w.setAll("loops.go:323")
+	// call of a function value loaded from a struct field (callback): its contract, if any, is keyed pkg.Struct.field
+	if key, ok := fieldCallKey(cc.Value); ok {
+		if c := e.cs.Funcs[key]; c != nil {
+			e.contractWrites(c, w)
+			return
+		}
+		w.setAll("call of callback field " + shortKey(key) + " (no contract)")
+		return
+	}
+	w.setAll("call of unknown function value in " + shortKey(funcKey(fn)))
+}
+
+// fieldCallKey recognises a call through a function-typed struct field: v = *(&x.f) or a cell holding it.
+func fieldCallKey(v ssa.Value) (string, bool) {
+	for i := 0; i < 4; i++ {
+		u, ok := v.(*ssa.UnOp)
+		if !ok || u.Op != token.MUL {
+			return "", false
+		}
+		switch x := u.X.(type) {
+		case *ssa.FieldAddr:
+			pt, ok := x.X.Type().Underlying().(*types.Pointer)
+			if !ok {
+				return "", false
+			}
+			nt, ok := pt.Elem().(*types.Named)
+			if !ok || nt.Obj().Pkg() == nil {
+				return "", false
+			}
+			st := nt.Underlying().(*types.Struct)
+			return nt.Obj().Pkg().Path() + "." + nt.Obj().Name() + "." + st.Field(x.Field).Name(), true
+		case *ssa.Alloc:
+			// cell holding the loaded field (NaiveForm): follow its single store
+			var val ssa.Value
+			n := 0
+			for _, ref := range *x.Referrers() {
+				if st, ok := ref.(*ssa.Store); ok && st.Addr == x {
+					val = st.Val
+					n++
+				}
+			}
+			if n != 1 {
+				return "", false
+			}
+			v = val
+		default:
+			return "", false
+		}
+	}
+	return "", false
 }
 
 func (e *Engine) contractWrites(c *FuncContract, w *WriteSet) {
